@@ -4,11 +4,14 @@
 import DemesVerif.Ops.Core
 import DemesVerif.Ops.IO
 import DemesVerif.Ops.Handles
+import DemesVerif.Ops.Cli
+import DemesVerif.Ops.Cost
+import DemesVerif.Ops.Ms
 namespace Demes.Ops
 open Lean
 
 def dispatchers : List (String → Json → Option Json) :=
-  [Core.dispatch?, IO.dispatch?, Handles.dispatch?]
+  [Core.dispatch?, IO.dispatch?, Handles.dispatch?, Cli.dispatch?, Cost.dispatch?, Ms.dispatch?]
 
 def dispatch (j : Json) : Json :=
   match j.getObjValAs? String "op" with
